@@ -91,9 +91,13 @@ class PGen:
             p.ins.append(('i%d' % i, 64 if self.wide and i == 0 else 32 if self.big_consts and i == 0 else rnd.choice(WIDTHS_IN)))
         for i in range(rnd.randint(1, 2)):
             p.outs.append(('o%d' % i, 64 if self.wide else 32 if self.big_consts else rnd.choice(WIDTHS_OUT)))
+        self.aug_only = set()
         if p.kind == 'clock' and not self.wide:
             for i in range(rnd.randint(0, 2)):
                 p.states.append(('s%d' % i, rnd.choice([0, 0, 1, 3, rnd.randint(0, 9)])))
+                if rnd.random() < 0.3:
+                    self.aug_only.add('s%d' % i)       # a state only ever changed by augmented assignment (a counter, a flag set)
+                    self.p.features.add('aug_only_state')
         for i in range(rnd.randint(0, 2)):
             p.consts.append(('k%d' % i, rnd.choice([0, 1, 2, 3, 5, 7, rnd.randint(0, 40)])))
         p.locals = [] if self.wide else ['t%d' % i for i in range(rnd.randint(0, 2))]     # locals are 32-bit integers in Verilog
@@ -211,7 +215,7 @@ class PGen:
         t = rnd.choice(targets)
         if t == 'state':
             n = rnd.choice(p.states)[0]
-            if rnd.random() < 0.25:
+            if n in self.aug_only or rnd.random() < 0.25:
                 op = rnd.choice(['+=', '-=', '&=', '|=', '^=', '*='])
                 self.p.features.add('aug')
                 return ['self.%s %s %s' % (n, op, self.expr(1))]
@@ -390,7 +394,7 @@ def cosim_behavioural(obj, hw, ins, outs, state_names, vectors, sequential, text
     res.diags = d.diags
     bad = [x for x in d.diags if x.code.startswith('parse:') or x.code in (
         'undeclared_identifier', 'duplicate_declaration', 'module_defined_twice', 'wire_assigned_procedurally', 'reg_driven_continuously',
-        'multiple_drivers', 'param_no_default')]
+        'multiple_drivers', 'param_no_default', 'assign_to_non_net')]
     import py4hw.rtl_generation as rg
     top = rg.getVerilogModuleName(obj, noInstanceNumber=not as_instance)
     if bad or top not in d.mods:
